@@ -18,14 +18,7 @@ uint8_t g_tx_octet;
 int g_tx_framing;
 const Sink *g_tx_sink;
 #endif
-size_t g_be_calls;
-int g_be_kind;
-uint32_t g_be_addr;
-size_t g_be_n;
-const void *g_be_buf;
-uint8_t g_be_in, g_be_out;
-int g_be_status;
-uint32_t g_be_raddr;
+struct st_be_log g_be;
 const unsigned char *g_blk_base;
 size_t g_blk_size, g_blk_used;
 size_t g_al_allocs, g_al_frees, g_al_live, g_al_bs;
@@ -33,6 +26,14 @@ void *g_al_block;
 uint8_t g_rx_octet;
 int g_dec_rc, g_dec_id;
 size_t g_dec_len;
+
+/* hooks for case splits of a target (defines in targets/*.json) */
+#ifndef RPP_PIN_ALLOC
+#define RPP_PIN_ALLOC
+#endif
+#ifndef RPP_PIN_P
+#define RPP_PIN_P
+#endif
 
 /* counters start anywhere: "exactly one more" is relative */
 #define RPP_COUNTERS() \
@@ -43,7 +44,7 @@ size_t g_dec_len;
 #define RPP_MAKE_ALLOC() \
   IN(int, in_altype) IN(size_t, in_blocksize) \
   ASSUME(in_altype == UFW_ALLOC_GENERIC || in_altype == UFW_ALLOC_SLAB); \
-  ASSUME(in_blocksize > sizeof(RPFrame) && in_blocksize <= RPP_BSMAX); \
+  ASSUME(in_blocksize > sizeof(RPFrame) && in_blocksize <= RPP_BSMAX); RPP_PIN_ALLOC \
   BlockAllocator al; \
   al.type = (Allocator)in_altype; al.blocksize = in_blocksize; al.driver = NULL; \
   if (in_altype == UFW_ALLOC_GENERIC) al.alloc.generic = st_al_generic; else al.alloc.slab = st_al_slab; \
@@ -56,7 +57,7 @@ size_t g_dec_len;
   RPP_MAKE_ALLOC() \
   IN(int, in_memtype) IN(int, in_eptype) IN(uint16_t, in_session) \
   ASSUME(in_memtype == RP_MEMTYPE_8 || in_memtype == RP_MEMTYPE_16); \
-  ASSUME(in_eptype == RP_EP_SERIAL || in_eptype == RP_EP_TCP); \
+  ASSUME(in_eptype == RP_EP_SERIAL || in_eptype == RP_EP_TCP); RPP_PIN_P \
   RegP p; \
   p.memory.type = (RPMemoryType)in_memtype; \
   if (in_memtype == RP_MEMTYPE_16) { p.memory.access.m16.read = st_be_read16; p.memory.access.m16.write = st_be_write16; } \
@@ -334,6 +335,8 @@ void h_cs_add(void)
   IN(size_t, in_n)
   ASSUME(in_n <= 2 * RPP_BSMAX);
   IN_MEM(in_chunk, in_n)
+  /* keep both size queries of the byte buffer in the unit whichever the code uses */
+  (void)byte_buffer_avail(&fb); (void)byte_buffer_rest(&fb);
   cs_add(&cs, in_chunk, in_n);
   VERIF_CANARY();
 }
